@@ -740,6 +740,10 @@ void lib_svt_encoder_send_error_exit(
 
 static void svt_enc_handle_stop_threads(EbEncHandle *enc_handle_ptr)
 {
+    // A handle whose construction failed part-way has no sequence control set yet: no thread was started
+    if (!enc_handle_ptr->scs_instance_array || !enc_handle_ptr->scs_instance_array[0] ||
+        !enc_handle_ptr->scs_instance_array[0]->scs_ptr)
+        return;
     SequenceControlSet*  control_set_ptr = enc_handle_ptr->scs_instance_array[0]->scs_ptr;
     // Resource Coordination
     EB_DESTROY_THREAD(enc_handle_ptr->resource_coordination_thread_handle);
@@ -1927,7 +1931,9 @@ EB_API EbErrorType svt_av1_enc_init_handle(
         }
     #endif
 
-    *p_handle = (EbComponentType*)malloc(sizeof(EbComponentType));
+    // zero-initialised: if the private handle cannot be constructed p_component_private must read as NULL
+    // on the failure path below (svt_av1_enc_deinit is called on the component)
+    *p_handle = (EbComponentType*)calloc(1, sizeof(EbComponentType));
     if (*p_handle == (EbComponentType*)NULL) {
         SVT_LOG("Error: Component Struct Malloc Failed\n");
         return EB_ErrorInsufficientResources;
